@@ -171,6 +171,33 @@ fn whole_second_cycles(acc: &mut Acc) {
     }
 }
 
+/// Extreme finite values: float properties whose neighbouring keyframe values lie at opposite far ends of the f32
+/// range (their difference is not an f32), through the main oracle at every exact-hit and after-end time of
+/// every timing configuration.
+fn extreme_values(acc: &mut Acc) {
+    let init = P::sentinel();
+    let big = 2.0f64.powi(127);
+    for (vi, kfs) in [
+        vec![Kf { pos: 0.0, a: Some(-f32::MAX), k: Some(i32::MIN), d: Some(-big), easing: None }, Kf { pos: 0.5, a: Some(f32::MAX), k: Some(1 << 30), d: Some(big), easing: None }, Kf { pos: 1.0, a: Some(-f32::MAX), k: Some(i32::MIN), d: Some(-big), easing: None }],
+        vec![Kf { pos: 0.0, a: Some(f32::MAX), k: None, d: Some(big), easing: Some(1) }, Kf { pos: 1.0, a: Some(-f32::MAX), k: None, d: Some(-big), easing: None }],
+        vec![Kf { pos: 0.25, a: Some(3.0e38), k: None, d: None, easing: None }, Kf { pos: 0.75, a: Some(-3.0e38), k: None, d: None, easing: None }],
+    ]
+    .into_iter()
+    .enumerate()
+    {
+        for (ti, th) in theta_plus().iter().enumerate() {
+            let spec = TlSpec { kfs: kfs.clone(), default_easing: 0, timing: *th };
+            let rt = RefTl::new(&spec);
+            let tl = spec.build();
+            acc.timelines += 1;
+            let (hits, after) = exact_times(th);
+            for &t in hits.iter().chain(after.iter()) {
+                check_eval(&spec, &rt, &tl, None, t, &init, (5u64 << 60) | (vi as u64) << 8 | ti as u64, acc);
+            }
+        }
+    }
+}
+
 /// Wide (2^j+1 keyframes) and tall (all subsets of a 9-point grid) families of common.rs, evaluated at
 /// exactly every keyframe position (forward, reverse and repeated pass).
 fn wide_tall_pass(thorough: bool) -> Acc {
@@ -310,6 +337,7 @@ pub fn run(run: Run) -> ! {
     let mut acc = acc;
     nondyadic_end(&mut acc);
     whole_second_cycles(&mut acc);
+    extreme_values(&mut acc);
     let wt = wide_tall_pass(run.is_thorough());
     let wt_evals = wt.evals;
     acc.sink.merge(wt.sink);
@@ -323,7 +351,7 @@ pub fn run(run: Run) -> ! {
     cov.insert("traces_validated_against_impl".into(), json!(acc.evals));
     cov.insert("evaluations".into(), json!(acc.evals));
     cov.insert("distinct_nontrivial".into(), json!(acc.exact_checks));
-    cov.insert("rule".into(), json!(format!("keyframe lists of size 0..={nmax} with per-property distinct positions (same alphabet as C01, incl. the variant with the f64 property d in place of a below the largest size) x 13 dyadic timing configurations (incl. Times 0/1/2/3, Infinite, reverse) x {{no start, start_with(v*)}} x exact-hit times delay+cycle*(c+p) / reversing delay+cycle*(c+p/2), delay+cycle*(c+1-p/2) for all grid positions p and cycles c<=3, t in {{0,delay/2,delay}}, every forward-pass end, and 6 after-end times (next f32 after total .. f32::MAX); every timeline is additionally evaluated wrapped in MergedTimeline::from (bit-equal); a non-dyadic companion evaluates 336 repeating timelines (cycles 0.1..2.3, delays 0..1.3, Times 1..20, reverse) at exactly the reported duration() and the 8 f32 values after it: the terminal value must be shown; a whole-second companion (every cycle length 1..=64 s x delays 0, 1/2, 3 x Infinite/Times(1)/Times(3) x reverse, at exactly every cycle boundary and half cycle of the first four cycles, same exact oracle: the end of every forward pass shows 100%); plus the WIDE family (2^j+1 keyframes at i/2^j, j in {{4,8,16}} quick / 1..=17 thorough, two property patterns) and the TALL family (every subset of size >= 2 of {{0,1/8,..,1}}) evaluated at exactly every keyframe position in the forward, reverse and repeated pass, with and without start_with; non-trivial = (evaluation, property) whose position coincides with exactly one keyframe of that property, compared exactly (int) / within 4 ulp (float)")));
+    cov.insert("rule".into(), json!(format!("keyframe lists of size 0..={nmax} with per-property distinct positions (same alphabet as C01, incl. the variant with the f64 property d in place of a below the largest size) x 13 dyadic timing configurations (incl. Times 0/1/2/3, Infinite, reverse) x {{no start, start_with(v*)}} x exact-hit times delay+cycle*(c+p) / reversing delay+cycle*(c+p/2), delay+cycle*(c+1-p/2) for all grid positions p and cycles c<=3, t in {{0,delay/2,delay}}, every forward-pass end, and 6 after-end times (next f32 after total .. f32::MAX); every timeline is additionally evaluated wrapped in MergedTimeline::from (bit-equal); a non-dyadic companion evaluates 336 repeating timelines (cycles 0.1..2.3, delays 0..1.3, Times 1..20, reverse) at exactly the reported duration() and the 8 f32 values after it: the terminal value must be shown; a whole-second companion (every cycle length 1..=64 s x delays 0, 1/2, 3 x Infinite/Times(1)/Times(3) x reverse, at exactly every cycle boundary and half cycle of the first four cycles, same exact oracle: the end of every forward pass shows 100%); an extreme-values companion (neighbouring keyframe values -f32::MAX / f32::MAX, -2^127 / 2^127 for f64, i32::MIN / 2^30, under all 13 timings at every exact-hit and after-end time); plus the WIDE family (2^j+1 keyframes at i/2^j, j in {{4,8,16}} quick / 1..=17 thorough, two property patterns) and the TALL family (every subset of size >= 2 of {{0,1/8,..,1}}) evaluated at exactly every keyframe position in the forward, reverse and repeated pass, with and without start_with; non-trivial = (evaluation, property) whose position coincides with exactly one keyframe of that property, compared exactly (int) / within 4 ulp (float)")));
     cov.insert("exhaustive".into(), json!(true));
     cov.insert("max_keyframes".into(), json!(nmax));
     cov.insert("after_end_constancy_groups".into(), json!(acc.after_end_groups));
